@@ -55,3 +55,19 @@ func init() {
 		MinEvals:    1000000,
 		MinCounters: map[string]int64{"skipvalue_succeeded": 100000, "with_bracket_quote_or_backslash_inside_string": 10000}})
 }
+
+func init() {
+	register(&Spec{ID: "C03", Run: RunC03,
+		Rule:        "inputs: W3 generated documents (duplicate/escaped keys, empty containers, invalid UTF-8, faults), W1 byte sweep, W4 depth boundary, W2 splice sample, W5; each through ReadValue, fresh and long-lived ValueReader.ReadValue/ReadObject/ReadArray and package ReadObject/ReadArray; distinct by input hash; non-trivial = the model parses the first value as an array or object (a tree is actually built)",
+		Assumptions: commonAssumptions, MinEvals: 3000000,
+		MinCounters: map[string]int64{"trees_compared": 500000, "expected_failures_observed": 500000, "duplicate_keys": 200, "escaped_keys": 200}})
+	register(&Spec{ID: "C04", Run: RunC04,
+		Rule:        "inputs: W6b (per Eisel-Lemire table row -348..347: decimals of 17-19 digits straddling an exact float midpoint), W6c (random floats x exact midpoint expansion truncated to 15..770 digits, +-1 in the last place, six spellings, >800-digit sticky tails), W6e (every exponent -400..400), W6s (overflow threshold at every length, subnormal halves, zeros, long exponents, classic hard cases); each literal with followers/whitespace through ReadFloat64, DecodeFloat64 and ReadValue; distinct by literal hash; non-trivial = more than 15 significant digits or an exponent part",
+		Assumptions: append([]string{"oracle: strconv.ParseFloat; a 2% sample is re-derived with exact big.Rat arithmetic (ties-to-even) and a disagreement makes the run inconclusive; literals whose integer part has more than 800 digits are decided by the exact big.Rat computation alone, because strconv itself is wrong there"}, commonAssumptions...),
+		MinEvals:    800000,
+		MinCounters: map[string]int64{"digits_17_to_19": 100000, "digits_20_to_800": 50000, "digits_over_800": 500, "expect_range_error": 1000, "expect_subnormal": 2000, "oracle_rechecked_with_exact_rational_arithmetic": 3000, "oracle_is_exact_rational_arithmetic_because_integer_part_exceeds_800_digits": 300}})
+	register(&Spec{ID: "C05", Run: RunC05,
+		Rule:        "inputs: W6a (every value within a window of each type bound and each 18/19/20-digit switch-over point x 3 whitespace prefixes x 21 followers, hand shapes, random digit strings of 1-40 digits) and the W1 byte sweep of top-level tokens; each through all six Read* and six Decode* integer functions against a math/big model; distinct by input hash; non-trivial = input starts (after whitespace and optional '-') with a digit",
+		Assumptions: commonAssumptions, MinEvals: 3000000,
+		MinCounters: map[string]int64{"expect_success_Int64": 50000, "expect_error_Int64": 50000, "expect_success_Uint32": 10000, "expect_error_Uint64": 50000}})
+}
